@@ -540,7 +540,7 @@ TOSTRING_STAGES = {
             # here: every state evaluates the renderer for a whole document); the depth comes from 20x more recorded documents
             "thorough": [("caps-text", _ts(3, 3, "ValsText", "NamesAB", "TRUE")),
                          ("caps-wide", _ts(1, 3, "ValsWide", "NamesOdd", "TRUE")),
-                         ("prior-state", _ts(3, 3, "ValsText", "NamesAB", "TRUE", "TRUE", "RootsOA", "Pres012"))]},
+                         ("prior-state", _ts(3, 3, "ValsText", "NamesAB", "FALSE", "TRUE", "RootsOA", "Pres012"))]},
     "C14": {"quick":    [("siblings", _ts(5, 4, "ValsOne", "NamesAB", "FALSE", "FALSE")),
                          ("values", _ts(2, 2, "ValsWide", "NamesOdd", "FALSE", "FALSE")),
                          ("text", _ts(3, 3, "ValsText", "NamesAB", "FALSE", "FALSE")),
